@@ -34,6 +34,9 @@ func runC04(c *an.Ctx) {
 	r04j(c)
 	r04k(c)
 	r04l(c)
+	// round 8
+	r04m(c)
+	r04n(c)
 }
 
 func r04a(c *an.Ctx) {
